@@ -2228,6 +2228,9 @@ class UpdateRisk(Algo):
         """Setup a risk measure within the risk attributes on the node in question"""
         target.risk[self.measure] = np.nan
         if set_history:
+            # the node may have been set up by a measure that keeps no history
+            if not hasattr(target, "risks"):
+                target.risks = pd.DataFrame(index=target.data.index)
             target.risks[self.measure] = np.nan
 
     def _set_risk_recursive(self, target, depth, unit_risk_frame):
